@@ -180,7 +180,7 @@ fn eval_isolated(check: &dyn Check, scenario: &Value, timeout: Duration) -> (Vec
         }
     ));
     std::fs::write(&path, json!({"property": check.id(), "scenario": scenario}).to_string()).unwrap();
-    let exe = std::env::current_exe().unwrap();
+    let exe = exe_for_scenario(check, scenario);
     let mut child = Command::new(exe)
         .arg("exec")
         .arg(&path)
@@ -237,6 +237,19 @@ fn eval_isolated(check: &dyn Check, scenario: &Value, timeout: Duration) -> (Vec
     }
 }
 
+/// Harness binary for a build mode.
+pub fn exe_for_mode(mode: &str) -> PathBuf {
+    verif_dir().join("target").join(if mode == "relchk" { "relchk" } else { "release" }).join("vsim")
+}
+
+fn exe_for_scenario(check: &dyn Check, scenario: &Value) -> PathBuf {
+    if check.dual_mode() {
+        exe_for_mode(scenario["mode"].as_str().unwrap_or("release"))
+    } else {
+        std::env::current_exe().unwrap()
+    }
+}
+
 fn same_class(a: &Violation, b: &Violation) -> bool {
     a.invariant == b.invariant && a.signature == b.signature
 }
@@ -253,6 +266,7 @@ fn minimise(
 ) -> (Value, Violation, u64, u64) {
     let t0 = Instant::now();
     let mut steps = 0u64;
+    let isolated = isolated || check.dual_mode();
     let eval = |s: &Value| -> (Vec<Violation>, u64) {
         if isolated {
             eval_isolated(check, s, watchdog)
@@ -369,13 +383,18 @@ fn supervise(check: &'static dyn Check, tier: Tier) -> i32 {
     let seed = verif_seed();
     let id = check.id();
     let n = check.count(tier);
-    let workers = nworkers().min(n.max(1));
+    let mut workers = nworkers().min(n.max(1));
+    if check.dual_mode() {
+        // index parity decides the build mode; with an even shard count, shard parity = index parity
+        workers = (workers / 2 * 2).max(2);
+    }
     let dir = work_dir();
     println!("check {id} tier={} VERIF_SEED={seed} scenarios={n} workers={workers}", tier.name());
     let exe = std::env::current_exe().unwrap();
     let mut children = Vec::new();
     for shard in 0..workers {
-        let child = Command::new(&exe)
+        let wexe = if check.dual_mode() { exe_for_mode(if shard % 2 == 1 { "relchk" } else { "release" }) } else { exe.clone() };
+        let child = Command::new(&wexe)
             .args([
                 "worker",
                 id,
@@ -638,7 +657,7 @@ fn replay_main(checks: &[&'static dyn Check], path: &Path) -> i32 {
         return 2;
     };
     let scenario = v["scenario"].clone();
-    let isolated = v["isolated"].as_bool().unwrap_or(false);
+    let isolated = v["isolated"].as_bool().unwrap_or(false) || check.dual_mode();
     let (viols, h) = if isolated {
         eval_isolated(*check, &scenario, Duration::from_secs(check.watchdog_s(Tier::Quick)))
     } else {
